@@ -274,6 +274,208 @@ pub(crate) mod __verif {
         kani::cover!(true);
     }
 
+    // @obligation name=h5_decat props=C03,C01:t fn=optimizer::decat kind=bounded bound="Cat[], Cat[x], Cat[a,b] over Char leaves with symbolic operands" min_checks=50 w=2 timeout=900
+    // decat: an empty Cat is removed, a singleton Cat is replaced by its child, a flat Cat of >= 2 children is kept.
+    #[kani::proof]
+    #[kani::unwind(4)]
+    fn h5_decat() {
+        let a: u32 = kani::any();
+        let b: u32 = kani::any();
+        let mut n0 = Node::Cat(Vec::new());
+        let r0 = decat(&mut n0, &walk(false));
+        assert!(matches!(&r0, PassAction::Remove));
+        let mut n1 = Node::Cat(vec![Node::Char { c: a }]);
+        let r1 = decat(&mut n1, &walk(false));
+        assert!(matches!(&r1, PassAction::Replace(Node::Char { c: x }) if *x == a));
+        let mut n3 = Node::Cat(vec![Node::Char { c: a }, Node::Char { c: b }]);
+        let r3 = decat(&mut n3, &walk(false));
+        assert!(matches!(&r3, PassAction::Keep));
+        core::mem::forget((n0, n1, n3, r0, r1, r3));
+        kani::cover!(true);
+    }
+
+    // @obligation name=h5_decat_flatten props= fn=optimizer::decat kind=bounded bound="Cat[Cat[a,b],c] over Char leaves with symbolic operands" min_checks=50 w=3 timeout=1500
+    // decat flattens nested Cats keeping the left-to-right order of the leaves.
+    #[kani::proof]
+    #[kani::unwind(4)]
+    fn h5_decat_flatten() {
+        let a: u32 = kani::any();
+        let b: u32 = kani::any();
+        let c: u32 = kani::any();
+        let mut n2 = Node::Cat(vec![Node::Cat(vec![Node::Char { c: a }, Node::Char { c: b }]), Node::Char { c }]);
+        let r2 = decat(&mut n2, &walk(false));
+        match &r2 {
+            PassAction::Replace(Node::Cat(v)) => {
+                assert!(v.len() == 3);
+                assert!(matches!(&v[0], Node::Char { c: x } if *x == a));
+                assert!(matches!(&v[1], Node::Char { c: x } if *x == b));
+                assert!(matches!(&v[2], Node::Char { c: x } if *x == c));
+            }
+            _ => assert!(false, "nested cats are flattened in order"),
+        }
+        core::mem::forget((n2, r2));
+        kani::cover!(true);
+    }
+
+    // @obligation name=h3_unroll_loops props= fn=optimizer::unroll_loops,optimizer::is_unrollable,ir::Node::try_duplicate kind=bounded bound="Loop{min 2, max in {2,3,4,unbounded}}(Char c), with and without enclosed groups" min_checks=50 w=3 timeout=1500
+    // unroll_loops fires only for a loop without enclosed groups and 1 <= min <= 5: the node becomes min copies of the body
+    // followed by Loop{0, max-min} over the same body (omitted when max == min); otherwise the loop is kept unchanged.
+    #[kani::proof]
+    #[kani::unwind(8)]
+    fn h3_unroll_loops() {
+        h3_body(2);
+    }
+
+    // @obligation name=h3_unroll_loops_not_firing props= fn=optimizer::unroll_loops kind=bounded bound="Loop{min 0}, Loop{min 6}, Loop{min 2 with enclosed groups} over Char c" min_checks=50 w=3 timeout=1500
+    // Loops that may run zero times, whose minimum exceeds the threshold, or that enclose capture groups are kept unchanged.
+    #[kani::proof]
+    #[kani::unwind(8)]
+    fn h3_unroll_loops_not_firing() {
+        if kani::any() { h3_body(0) } else { h3_body(6) }
+    }
+
+    fn h3_body(min: usize) {
+        let c: u32 = kani::any();
+        let extra: usize = kani::any();
+        kani::assume(extra <= 2);
+        let bounded: bool = kani::any();
+        let max = if bounded { Some(min + extra) } else { None };
+        let groups: bool = kani::any();
+        let mut n = Node::Loop { loopee: Box::new(Node::Char { c }), quant: Quantifier { min, max, greedy: true }, enclosed_groups: if groups { 0..1 } else { 0..0 } };
+        let r = unroll_loops(&mut n, &walk(false));
+        let fires = !groups && min >= 1 && min <= 5;
+        if !fires {
+            assert!(matches!(&r, PassAction::Keep));
+            assert!(matches!(&n, Node::Loop { quant, .. } if quant.min == min && quant.max == max));
+        } else {
+            assert!(matches!(&r, PassAction::Modified));
+            match &n {
+                Node::Cat(v) => {
+                    let tail = !(bounded && extra == 0);
+                    assert!(v.len() == min + if tail { 1 } else { 0 });
+                    let i: usize = kani::any();
+                    kani::assume(i < min);
+                    assert!(matches!(&v[i], Node::Char { c: x } if *x == c));
+                    if tail {
+                        match &v[min] {
+                            Node::Loop { loopee, quant, enclosed_groups } => {
+                                assert!(quant.min == 0 && quant.greedy);
+                                assert!(quant.max == if bounded { Some(extra) } else { None });
+                                assert!(enclosed_groups.start == enclosed_groups.end);
+                                assert!(matches!(&**loopee, Node::Char { c: x } if *x == c));
+                            }
+                            _ => assert!(false),
+                        }
+                    }
+                }
+                _ => assert!(false),
+            }
+        }
+        core::mem::forget((n, r));
+        kani::cover!(bounded && extra == 0);
+        kani::cover!(!bounded);
+    }
+
+    // @obligation name=h5_early_fail_alt_loop props= fn=optimizer::propagate_early_fails kind=bounded bound="Alt(fails, x), Alt(x, fails), Alt(fails, fails), Loop{min}(fails) over group-free leaves" min_checks=50 w=3 timeout=1500
+    // propagate_early_fails on group-free nodes: an Alt with one always-failing arm is replaced by the other arm, with two by
+    // an always-fails node; a loop whose body always fails always fails iff it must run at least once.
+    #[kani::proof]
+    #[kani::unwind(9)]
+    fn h5_early_fail_alt_loop() {
+        let c: u32 = kani::any();
+        let fails = || Node::make_always_fails();
+        let mut n1 = Node::Alt(Box::new(fails()), Box::new(Node::Char { c }));
+        let r1 = propagate_early_fails(&mut n1, &walk(false));
+        assert!(matches!(&r1, PassAction::Replace(Node::Char { c: x }) if *x == c));
+        let mut n2 = Node::Alt(Box::new(Node::Char { c }), Box::new(fails()));
+        let r2 = propagate_early_fails(&mut n2, &walk(false));
+        assert!(matches!(&r2, PassAction::Replace(Node::Char { c: x }) if *x == c));
+        let mut n3 = Node::Alt(Box::new(fails()), Box::new(fails()));
+        let r3 = propagate_early_fails(&mut n3, &walk(false));
+        assert!(matches!(&r3, PassAction::Replace(Node::CharSet(v)) if v.is_empty()));
+        let min: usize = kani::any();
+        let mut n4 = Node::Loop { loopee: Box::new(fails()), quant: Quantifier { min, max: None, greedy: true }, enclosed_groups: 0..0 };
+        let r4 = propagate_early_fails(&mut n4, &walk(false));
+        if min > 0 {
+            assert!(matches!(&r4, PassAction::Replace(Node::CharSet(v)) if v.is_empty()));
+        } else {
+            assert!(matches!(&r4, PassAction::Keep), "a loop that may run zero times can still match");
+        }
+        core::mem::forget((n1, n2, n3, n4, r1, r2, r3, r4));
+        kani::cover!(min == 0);
+    }
+
+    // @obligation name=h5_remove_empties_cat props=C03 fn=optimizer::remove_empties kind=bounded bound="Cat[Empty, x], Cat[Empty, Empty], Cat[x, Empty, y], Alt(Empty, Empty), Alt(Empty, x), positive/negative lookaround over Empty" min_checks=50 w=3 timeout=1500
+    // remove_empties drops Empty children of a Cat keeping the order of the others (a singleton result replaces the Cat, an
+    // empty result removes it); an Alt is removed only if BOTH arms are empty (an empty arm can still match); a positive
+    // lookaround over Empty is removed, a negative one is kept.
+    #[kani::proof]
+    #[kani::unwind(6)]
+    fn h5_remove_empties_cat() {
+        let a: u32 = kani::any();
+        let b: u32 = kani::any();
+        let mut n1 = Node::Cat(vec![Node::Empty, Node::Char { c: a }]);
+        let r1 = remove_empties(&mut n1, &walk(false));
+        assert!(matches!(&r1, PassAction::Replace(Node::Char { c: x }) if *x == a));
+        let mut n2 = Node::Cat(vec![Node::Empty, Node::Empty]);
+        let r2 = remove_empties(&mut n2, &walk(false));
+        assert!(matches!(&r2, PassAction::Remove));
+        let mut n3 = Node::Cat(vec![Node::Char { c: a }, Node::Empty, Node::Char { c: b }]);
+        let r3 = remove_empties(&mut n3, &walk(false));
+        assert!(matches!(&r3, PassAction::Modified));
+        match &n3 {
+            Node::Cat(v) => {
+                assert!(v.len() == 2);
+                assert!(matches!(&v[0], Node::Char { c: x } if *x == a));
+                assert!(matches!(&v[1], Node::Char { c: x } if *x == b));
+            }
+            _ => assert!(false),
+        }
+        let mut n4 = Node::Alt(Box::new(Node::Empty), Box::new(Node::Empty));
+        let r4 = remove_empties(&mut n4, &walk(false));
+        assert!(matches!(&r4, PassAction::Remove));
+        let mut n5 = Node::Alt(Box::new(Node::Empty), Box::new(Node::Char { c: a }));
+        let r5 = remove_empties(&mut n5, &walk(false));
+        assert!(matches!(&r5, PassAction::Keep), "an alternation with one empty arm still matches the empty string");
+        let neg: bool = kani::any();
+        let mut n6 = Node::LookaroundAssertion { negate: neg, backwards: false, start_group: 0, end_group: 0, contents: Box::new(Node::Empty) };
+        let r6 = remove_empties(&mut n6, &walk(false));
+        assert!(matches!(&r6, PassAction::Remove) == !neg);
+        core::mem::forget((n1, n2, n3, n4, n5, n6, r1, r2, r3, r4, r5, r6));
+        kani::cover!(neg);
+    }
+
+    // @obligation name=h1_simplify_brackets_inversion props=C03,C12 fn=optimizer::simplify_brackets kind=bounded bound="bracket = everything except one symbolic code point a (2 intervals), invert symbolic; probe: every code point" min_checks=50 w=3 timeout=1500
+    // simplify_brackets may replace (cps, invert) by (complement of cps, !invert) when that has fewer intervals: the bracket
+    // denotes the same set of code points before and after (checked at a symbolic code point).
+    #[kani::proof]
+    #[kani::unwind(8)]
+    fn h1_simplify_brackets_inversion() {
+        use crate::codepointset::{CodePointSet, Interval};
+        let a: u32 = kani::any();
+        kani::assume(a >= 10 && a <= 0x10FFFF - 10);
+        let invert: bool = kani::any();
+        let cps = CodePointSet::from_sorted_disjoint_intervals(vec![Interval { first: 0, last: a - 1 }, Interval { first: a + 1, last: 0x10FFFF }]);
+        let mut n = Node::Bracket(BracketContents { invert, cps });
+        let cp: u32 = kani::any();
+        kani::assume(cp <= 0x10FFFF);
+        let before = (cp != a) != invert;
+        let r = simplify_brackets(&mut n, &walk(false));
+        match (&r, &n) {
+            (PassAction::Modified, Node::Bracket(bc)) | (PassAction::Keep, Node::Bracket(bc)) => {
+                assert!((bc.cps.contains(cp) != bc.invert) == before, "the bracket denotes the same set");
+            }
+            (PassAction::Replace(Node::CharSet(v)), _) => {
+                // only possible for a non-inverted small bracket; here the bracket has > 4 members
+                assert!(false, "a bracket with more than 4 members is not reduced to a CharSet: {}", v.len());
+            }
+            _ => assert!(false),
+        }
+        let modified = matches!(&r, PassAction::Modified);
+        core::mem::forget((n, r));
+        kani::cover!(modified);
+    }
+
     // ---------------------------------------------------------------------------------------------
     // Whole optimizer (all passes to fixpoint through the recursive tree walk) on small IR trees.
 
